@@ -29,7 +29,7 @@ ASSUMPTIONS = [
 T.ALPHABETS['c11amr'] = {'concepts': ['x'], 'roles': [':mod', ':mod-of', ':polarity~e.1', ':ARG0', ':poss-of'], 'atoms': ['-', 'k~e.1'], 'refs': 'all+aligned0'}
 T.ALPHABETS['c11mini'] = {'concepts': ['x'], 'roles': [':mod', ':accompanier-of~1', ':ARG0'], 'atoms': ['-'], 'refs': 'all'}
 T.ALPHABETS['c11t'] = {'concepts': ['x', 'ra'], 'roles': [':a', ':a-of~1', ':b'], 'atoms': ['k'], 'refs': 'all'}
-T.ALPHABETS['c11deep'] = {'concepts': ['x', 'have-mod-91'], 'roles': [':mod', ':ARG0'], 'atoms': ['-'], 'refs': 'all'}
+T.ALPHABETS['c11deep'] = {'concepts': ['x', 'have-mod-91'], 'roles': [':mod', ':ARG0', ':ARG0-of'], 'atoms': ['-'], 'refs': 'all'}
 T.ALPHABETS['c11nc2'] = {'concepts': ['x', 'have-mod-91'], 'roles': [':ARG1-of', ':ARG2', ':ARG1'], 'atoms': ['-', '7'], 'refs': 'all'}
 T.ALPHABETS['c11nc'] = {'concepts': ['x', 'have-mod-91'], 'roles': [':ARG1', ':ARG2', ':ARG1-of', ':ARG2-of', ':ARG0'], 'atoms': ['-'], 'refs': 'all'}
 
